@@ -12,7 +12,7 @@ BUDGET = {"quick": 30, "thorough": 600}
 SHAPES = ["head_at_limit", "head_unterminated", "cl_at_limit", "chunked_at_limit", "cl_huge_digits", "csize_huge_digits",
           "unterminated_chunk_line", "unterminated_trailer", "mutated_message", "garbage", "long_reqline",
           "many_small_headers", "head_at_limit_leading_crlf", "long_value_bad_tail", "long_trailer_bad_tail",
-          "leading_ws_flood"]
+          "leading_ws_flood", "ows_flood_bad_tail"]
 EVIDENCE = {
     "rule": "one connection; input shape drawn from " + ", ".join(SHAPES) + "; max_request_header_size in {16..262144}, "
             "max_request_body_size in {8..1 GiB}, sizes placed at limit-2..limit+2, recv_bytes in {1,7,64,8192}, with and "
@@ -206,6 +206,23 @@ def build(sc):
         exp["statuses"] = {400}
         exp["anything"] = True
         exp["timed"] = True
+    elif shape == "ows_flood_bad_tail":
+        # a field line made of the name, tens of thousands of blanks and one octet that is not allowed (in the head
+        # or in a trailer): optional-whitespace matched twice around an empty value makes a backtracking pattern
+        # quadratic - seconds of CPU on the I/O thread for 40 kB, minutes for a head at the default limit
+        n = [40000, 30000][sc["seed"] % 2]
+        ws = [b" ", b"\t"][(sc["seed"] >> 1) % 2]
+        bad = [b"\x7f", b"\x01", b"\x00", b"\x0b"][(sc["seed"] >> 2) % 4]
+        line = b"X-Pad:" + ws * n + bad
+        if (sc["seed"] >> 4) % 2:
+            stream = b"GET /x HTTP/1.1\r\nHost: h\r\n" + line + b"\r\n\r\n"
+        else:
+            stream = b"POST /x HTTP/1.1\r\nHost: h\r\nTransfer-Encoding: chunked\r\n\r\n3\r\nabc\r\n0\r\n" + line + b"\r\n\r\n"
+        sc["recv_bytes"] = 8192
+        exp["may_refuse"] = True
+        exp["statuses"] = {400}
+        exp["anything"] = True
+        exp["timed"] = True
     elif shape == "garbage":
         import random
         rr = random.Random(sc["seed"])
@@ -279,7 +296,7 @@ def run_one(tapes, tier, scenario=None):
     # ---------------------------------------------------------------- oracle
     s = sim.conns.get(0)
     wire = bytes(s.wire)
-    if t_wall > 3.0 and len(stream) < 20000:
+    if t_wall > 3.0 and (len(stream) < 20000 or sc["shape"] == "ows_flood_bad_tail"):
         # (measured CPU time, hence the generous threshold: such a run normally takes a few milliseconds)
         res.v("hang", "slow_parse:" + sc["shape"], "handling %d bytes of input took %.1f s of CPU time: %r" % (len(stream), t_wall, stream[-80:]))
     rs, probs = parse_stream(wire, ["GET"] * 6, s.closed)
